@@ -1088,6 +1088,13 @@ w('C13', 'AddValidator: unsupported consensus key type accepted when types are l
   ('x/opchild/keeper/msg_server.go', '\t\tif !hasKeyType {\n', '\t\tif !hasKeyType && len(cp.Validator.PubKeyTypes) == 0 {\n'))
 w('C13', 'AddValidator: key type compared with the moniker instead of the listed types', 'C13.R12',
   ('x/opchild/keeper/msg_server.go', '\t\t\tif pkType == keyType {\n', '\t\t\tif pkType == keyType || req.Moniker == keyType {\n'))
+w('C13', 'BENIGN: AddValidator key type search written with slices.Contains', '',
+  ('x/opchild/keeper/msg_server.go', '\t"fmt"\n\t"strconv"\n', '\t"fmt"\n\t"slices"\n\t"strconv"\n'),
+  ('x/opchild/keeper/msg_server.go', '\t\thasKeyType := false\n\t\tfor _, keyType := range cp.Validator.PubKeyTypes {\n\t\t\tif pkType == keyType {\n\t\t\t\thasKeyType = true\n\t\t\t\tbreak\n\t\t\t}\n\t\t}\n', '\t\thasKeyType := slices.Contains(cp.Validator.PubKeyTypes, pkType)\n'))
+w('C07', 'BENIGN: ante result taken into fresh locals before the context is replaced', '',
+  ('x/opchild/keeper/deposit.go', '\tctx, err = k.decorators(ctx, tx, false)\n\tif err != nil {\n\t\treason = fmt.Sprintf("Failed to run AnteHandler: %s", err)\n\t\treturn\n\t}\n', '\tanteCtx, anteErr := k.decorators(ctx, tx, false)\n\tif anteErr != nil {\n\t\treason = fmt.Sprintf("Failed to run AnteHandler: %s", anteErr)\n\t\treturn\n\t}\n\tctx = anteCtx\n'))
+w('C20', 'BENIGN: chain floor read classified with a switch', '',
+  ('x/opchild/ante/fee.go', '\t\t\tparamsMinGasPrices, err := mfd.keeper.MinGasPrices(ctx)\n\t\t\tif err != nil {\n\t\t\t\treturn nil, 0, err\n\t\t\t}\n\n\t\t\tminGasPrices = CombinedMinGasPrices(minGasPrices, paramsMinGasPrices)\n', '\t\t\tswitch paramsMinGasPrices, err := mfd.keeper.MinGasPrices(ctx); {\n\t\t\tcase err != nil:\n\t\t\t\treturn nil, 0, err\n\t\t\tdefault:\n\t\t\t\tminGasPrices = CombinedMinGasPrices(minGasPrices, paramsMinGasPrices)\n\t\t\t}\n'))
 # wave g
 wseed('C01g','C01.R4'); wseed('C02g','C02.R1'); wseed('C03g','C03.R6'); wseed('C04g','C04.R6'); wseed('C05g','C05.R8')
 wseed('C06g','C06.R1'); wseed('C07g','C07.R3'); wseed('C08g','C08.R1'); wseed('C09g','C09.R6'); wseed('C10g','C10.R7')
